@@ -316,7 +316,7 @@ func runC02(c *Ctx) {
 					return f.Pol && f.T.Op == "call" && f.T.Fn != nil && f.T.Fn.Name() == "IsSharedGPUAllocation"
 				}) {
 					n++
-					if _, path, found := reachAvoiding([]cfgPos{{s, 0}}, isReturn, isZeroSet, nil); found {
+					if _, path, found := reachAvoiding([]cfgPos{{B: s, I: 0}}, isReturn, isZeroSet, nil); found {
 						bad = pathStr(path)
 					}
 				}
